@@ -454,6 +454,10 @@ pub struct SKey {
     pub tline: String,
     pub tcol: usize,
     pub pend: u8,
+    /// optional refinement: hash of the one-step behaviour (per event: results, sink bytes, handler
+    /// calls, canonical successor). Separates states that the hooks cannot tell apart (state a change
+    /// added to the library, e.g. a cache) as soon as the difference shows within one step.
+    pub sig: u64,
 }
 
 pub fn skey(s: &Sess) -> SKey {
@@ -468,6 +472,7 @@ pub fn skey(s: &Sess) -> SKey {
         tline: s.term.trimmed(),
         tcol: s.term.col,
         pend: s.pend,
+        sig: 0,
     }
 }
 
@@ -506,4 +511,29 @@ pub fn feed<C: Autocomplete + Help>(n: &mut Sess, bytes: &[u8], mode: HMode) -> 
     }
     let out = sink_bytes(&n.cli.__verif_writer_mut().take());
     (log, out, status)
+}
+
+/// one-step behaviour signature of a session under the given events (see `SKey::sig`)
+pub fn behaviour_sig<C: Autocomplete + Help>(s: &Sess, events: &[Ev], with_screen: bool) -> u64 {
+    use std::hash::{Hash, Hasher};
+    let mut h = std::collections::hash_map::DefaultHasher::new();
+    for e in events {
+        let (n, calls) = apply::<C>(s, e);
+        for c in &calls {
+            c.ok.hash(&mut h);
+            c.panicked.is_some().hash(&mut h);
+            sink_bytes(&c.sink).hash(&mut h);
+            for hc in &c.handler {
+                hc.name.hash(&mut h);
+                hc.args.hash(&mut h);
+            }
+        }
+        let mut k = skey(&n);
+        if !with_screen {
+            k.tline.clear();
+            k.tcol = 0;
+        }
+        k.hash(&mut h);
+    }
+    h.finish()
 }
